@@ -1828,6 +1828,9 @@ class Interp:
                     for d in c.fn.node.decorator_list)
             if c.how == "ctor":
                 bound = True
+            if c.how == "super" and args and args[0] == ("self",):
+                # super().m(a) has been rewritten to Base.m(self, a)
+                bound = False
             if bound:
                 names = names[1:]
             defaults = list(a.defaults)
